@@ -38,7 +38,7 @@ class ModelTie:
 
     def check(self, p, server_answers=None):
         files = p.files()
-        paths = sorted({".".join(u.path) for u in p.uses} | {o.text for o in p.occs if o.role in ("invoke", "arg")})
+        paths = sorted({".".join(getattr(u, "shown", u.path)) for u in p.uses} | {o.text for o in p.occs if o.role in ("invoke", "arg")})
         r = self.nav.call({"cmd": "nav", "files": files, "greedy": True, "paths": paths}, timeout=60.0)
         if "nodes" not in r:
             self.tie("correspondence:probe", "mosnav failed: %s" % str(r)[:300], {"files": files})
@@ -76,9 +76,10 @@ class ModelTie:
                     continue
                 col = min(o.col for o in p.occs if o.stmt is u)
                 width = len(".".join(u.path))
+                shown = ".".join(getattr(u, "shown", u.path))
                 scopes = sorted({e["scope"] for e in r["source_map"] if e["file"].split("/")[-1] == u.file and e["line"] == u.line})
                 for sc in scopes:
-                    uses.append([sc, ".".join(u.path), [fidx[u.file], u.line, col, u.line, col + width]])
+                    uses.append([sc, shown, [fidx[u.file], u.line, col, u.line, col + width]])
                     meta.append((u, sc, col, width))
             if uses:
                 m2 = self.model.call({"cmd": "use_pairs", "graph": g, "fuel": fuel, "uses": uses}, timeout=120.0)
